@@ -1147,7 +1147,8 @@ func parseGuard(a Atom, be *BigEval) (Guard, bool) {
 			}
 			g := Guard{Kind: "big", Subject: desc(callArgs(c)[0]), SubjV: callArgs(c)[0], Rel: r, Call: c, Bound: termTop()}
 			// mirrored form `bound.Cmp(x) > 0`: the subject is the operand that is less bound-like
-			if guardRank(desc(callArgs(c)[1])) > guardRank(desc(callArgs(c)[0])) {
+			// (an operand that an unexported helper computed and returned is ranked as what the helper returns: a fresh value)
+			if guardRank(descNN(callArgs(c)[1])) > guardRank(descNN(callArgs(c)[0])) {
 				g.Subject, g.SubjV, g.Rel = desc(callArgs(c)[1]), callArgs(c)[1], relFlip[r]
 				if be != nil {
 					if ts, ok := be.At[c]; ok && len(ts) >= 2 {
